@@ -211,6 +211,8 @@ def seq_get(s, i):
         if isinstance(i, int):
             return s[i]
         # symbolic index into a concrete sequence: fork over positions
+        if not s:
+            raise Unsupported("index into an empty sequence")
         st = cur()
         k = st.choose([V._cmp("==", i, j) for j in range(len(s))])
         return s[k]
@@ -264,6 +266,10 @@ def to_sseq(s, shape=None):
 def seq_concat(a, b):
     if isinstance(a, (tuple, list)) and isinstance(b, (tuple, list)):
         return tuple(a) + tuple(b)
+    if isinstance(b, (tuple, list)) and not b:
+        return a
+    if isinstance(a, (tuple, list)) and not a:
+        return b
     a, b = to_sseq(a), to_sseq(b)
     na = a.length
 
@@ -374,7 +380,7 @@ class DRef(Sym):
         self.d = dict(d or {})
 
     def snapshot(self):
-        return DRef(self.d)
+        return DRef({k: (v.snapshot() if isinstance(v, (LRef, DRef, SObj)) else v) for k, v in self.d.items()})
 
     __hash__ = object.__hash__
 
